@@ -199,6 +199,9 @@ func c07Units(tier string) []*Unit {
 	cyc := map[string]*Prog{
 		"cycle-self-dep": {Tasks: []*T{{Name: "root", Deps: []Ref{{Task: "root", VP: "@"}}, Cmds: []C{P()}}}},
 		"cycle-2-deps":   {Tasks: []*T{{Name: "root", Deps: []Ref{{Task: "a", VP: "@"}}, Cmds: []C{P()}}, {Name: "a", Deps: []Ref{{Task: "root", VP: "@"}}}}},
+		"cycle-watch-tasks": {Tasks: []*T{{Name: "root", Cmds: []C{{Call: &Ref{Task: "ping", VP: "@"}}}},
+			{Name: "ping", RawLines: []string{"watch: true"}, Cmds: []C{{Call: &Ref{Task: "pong", VP: "@"}}}},
+			{Name: "pong", RawLines: []string{"watch: true"}, Cmds: []C{{Call: &Ref{Task: "ping", VP: "@"}}}}}},
 		"cycle-2-calls":  {Tasks: []*T{{Name: "root", Cmds: []C{{Call: &Ref{Task: "a", VP: "@"}}}}, {Name: "a", Cmds: []C{{Call: &Ref{Task: "root", VP: "@"}}}}}},
 	}
 	var cn []string
